@@ -652,5 +652,8 @@ def gen_c11_e2e(tier, seed):
              "cmod": rng.choice([1, 3, 7]), "seed": rng.randrange(1 << 20), "fplog": 0, "oshape": "z", "_novos": True}
         if d["entry"] == 2:
             d["ishape"] = "s"
+        if idx % 5 == 4:
+            # the OS-timer arm on the scripted source (1 tick = 1 ns), with spans up to and beyond 2^64 ps
+            d.update({"tsc": 0, "vos": 1, "T": 1, "s": 1, "cbase": rng.choice([1000, 2 ** 40, 2 ** 54, 2 ** 55, 2 ** 60]), "cstep": rng.choice([0, 1]), "n": rng.choice([2, 3])})
         out.append(line(d))
     return out
